@@ -202,6 +202,7 @@ partial def runBlocks (s : App) (set : CSet) (halted : Bool) : P Unit := do
         let pre := match App.beforeEnd theEnv s b with | .ok (_, sp) => Pre sp set | .error _ => false
         out s!"PRE {if pre then 1 else 0}"
         out s!"QUIET {if App.quietBlockB s set b then 1 else 0}"
+        out s!"QUIET2 {if App.quietBlock2B s set b then 1 else 0}"
         out "STEP 0"
         out (match hk with | .panic => "HALT panic" | .error => "HALT error")
         runBlocks s set true
@@ -216,6 +217,7 @@ partial def runBlocks (s : App) (set : CSet) (halted : Bool) : P Unit := do
         let pre := match App.beforeEnd theEnv s b with | .ok (_, sp) => Pre sp set | .error _ => false
         out s!"PRE {if pre then 1 else 0}"
         out s!"QUIET {if App.quietBlockB s set b then 1 else 0}"
+        out s!"QUIET2 {if App.quietBlock2B s set b then 1 else 0}"
         match Comet.applyChangeSet set bo.updates with
         | .error ce =>
           out s!"STEP 0"
@@ -241,6 +243,7 @@ partial def runAll : P Unit := do
     let g : Genesis := { maxVals := ← pNat mv, unbond := ← pInt ub, window := ← pInt w, minSigned := ← pInt ms,
                          jailNs := ← pInt jn, slashDown := ← pInt sd, minComm := ← pInt mc, vals := vals }
     out "H 0"
+    out s!"WF {if g.wf then 1 else 0}"
     match App.initChain g with
     | .error _ =>
       out "HALT error"
